@@ -102,7 +102,8 @@ def _round(x, d, fam):
     scaled = fx * (Fraction(10) ** d)
     fl = math.floor(scaled)
     frac = scaled - fl
-    if frac == Fraction(1, 2):
+    if abs(frac - Fraction(1, 2)) < Fraction(1, 10**9):
+        # a tie, or so close to one that the engines' scaling in floating point (x * 10**d) lands on it
         return UNDEF
     r = fl + (1 if frac > Fraction(1, 2) else 0)
     res = Fraction(r) / (Fraction(10) ** d)
